@@ -16,12 +16,12 @@ SUBST = {"RxSeq": "RxSeq8", "MetSeq": "MetSeq4", "GeneSeq": "GeneSeq4", "GrpSeq"
 
 # "full:N" = every sequence of N operations of the small context vocabulary (exhaustive), closed by exits
 PROFILE = {"C01": ["edit"], "C02": ["edit"], "C03": ["full", "fullbounds", "ctx"], "C07": ["ko"], "C12": ["copy"],
-           "C13": ["analyze"], "C10": ["io"], "C11": ["io"]}
+           "C13": ["analyze"], "C10": ["fullio", "io"], "C11": ["fullio", "io"]}
 TIERS = {
-    "quick": {"full": (0, 2), "fullbounds": (0, 3), "edit": (700, 14), "ctx": (300, 16), "ko": (700, 12), "copy": (600, 14), "analyze": (220, 9),
-              "io": (600, 10), "palettes": 2},
-    "thorough": {"full": (0, 3), "fullbounds": (0, 4), "edit": (20000, 18), "ctx": (20000, 20), "ko": (8000, 14), "copy": (15000, 16), "analyze": (2500, 10),
-                 "io": (9000, 12), "palettes": 3},
+    "quick": {"full": (0, 2), "fullbounds": (0, 3), "fullio": (0, 3), "edit": (700, 14), "ctx": (300, 16), "ko": (700, 12), "copy": (600, 14), "analyze": (220, 9),
+              "io": (300, 12), "palettes": 2},
+    "thorough": {"full": (0, 3), "fullbounds": (0, 4), "fullio": (0, 4), "edit": (8000, 18), "ctx": (5000, 20),
+                 "ko": (5000, 14), "copy": (6000, 16), "analyze": (1200, 10), "io": (3000, 12), "palettes": 3},
 }
 KO_ACTIONS = {"GeneKnockOut", "KnockOutModelGenes", "RxnKnockOut"}
 SBML_FMTS = {"sbml", "sbml_file", "sbml_freplace_off"}
@@ -60,13 +60,17 @@ def attribute(v):
         props.add("C07")
     if a == "RoundTrip" and anything:
         props.add("C10" if op.get("fmt") in SBML_FMTS else "C11")
+    if a == "SaveDoc" and anything:
+        props.add("C10" if op.get("fmt") in SBML_FMTS else "C11")
+    if a == "LoadDoc" and anything:
+        props.add("C10" if "doc_sbml" in tags else "C11")
     if a == "Copy" and anything:
         props.add("C12")
     if a in ("Analyze", "Helper") and anything:
         props.add("C13")
     if a == "RxnArith" and anything:
         props.add("C12")
-    if a not in ("Exit", "Enter", "RoundTrip", "Copy", "Analyze", "Helper", "RxnArith") and fields:
+    if a not in ("Exit", "Enter", "RoundTrip", "Copy", "Analyze", "Helper", "RxnArith", "SaveDoc", "LoadDoc") and fields:
         props.add("C02")
         if "in_context" in tags and any(f.endswith(":ctx") for f in fields):
             props.add("C03")
@@ -112,6 +116,11 @@ def drive_all(behs, palettes, wd, tag):
             tid += 1
             items.append((pal, tid, beh))
             meta[tid] = (pal["name"], bi)
+    import cobra  # noqa: F401  (imported once here; every behaviour then runs in a fork of this process)
+    import cobra.io  # noqa: F401
+    import cobra.flux_analysis  # noqa: F401
+    import cobra.sampling  # noqa: F401
+    import swiglpk  # noqa: F401
     results = C.isolated_map(_drive_one, items, C.NCPU, wd, "drv_" + tag)
     traces, crashes = [], []
     for (pal, tid, beh), r in zip(items, results):
@@ -172,11 +181,12 @@ def run(prop, tier, replay=None):
     attributed_elsewhere = 0
     for profile in PROFILE[prop]:
         nwalks, depth = T[profile]
-        if profile in ("full", "fullbounds"):
-            res = tlc_walks(wd, rep, "ctx", 1, depth, sd, mode="full", fullset="all" if profile == "full" else "bounds")
+        if profile in ("full", "fullbounds", "fullio"):
+            res = tlc_walks(wd, rep, "ctx", 1, depth, sd, mode="full",
+                            fullset={"full": "all", "fullbounds": "bounds", "fullio": "io"}[profile])
             for b in res["printed"]:        # close every context that is still open
                 opened = sum(1 for o in b["ops"] if o["a"] == "Enter") - sum(1 for o in b["ops"] if o["a"] == "Exit")
-                b["ops"] = b["ops"] + [{"a": "Exit", "s": 1}] * max(1, opened)
+                b["ops"] = b["ops"] + [{"a": "Exit", "s": 1}] * (max(1, opened) if profile != "fullio" else 0)
         else:
             res = tlc_walks(wd, rep, profile, nwalks, depth, sd)
         rep.add_design(res)
@@ -277,7 +287,7 @@ def run(prop, tier, replay=None):
         "distinct_pre_state_action_pairs": len(nontrivial),
         "rule": "a case is a distinct (operation with arguments, stoichiometry of the state it was applied to) pair "
                 "that was not skipped as out of scope",
-        "exhaustive": "full" in PROFILE[prop],     # the full* families are complete enumerations; walks are samples
+        "exhaustive": any(p.startswith("full") for p in PROFILE[prop]),     # the full* families are complete enumerations; walks are samples
     })
 
 
